@@ -90,3 +90,53 @@ Example C08_unterminated_comment_line :
              = ADone (Some (Some {| h_vars := 1; h_clauses := 2; h_extra := 0 |}), [(0%Z, [1%Z])],
                       FErr (ESyntax 4 1), {| l_line := 4; l_start := 17 |}) v'.
 Proof. eexists. vm_compute. reflexivity. Qed.
+
+(* ------------------------------------------------------------------ *)
+(* AIGER and BTOR2, end to end, every admissible run (AigerSafe.v, Btor2Safe.v).  ASCII AIGER and BTOR2: the reported
+   (line, column) is exactly line_col_of S pos for a position pos of the input (no exception at all).  Binary AIGER:
+   the code does not count LF bytes inside the and-gate section (known finding K1), so loc_ok holds for the input with
+   those bytes masked, and for the input itself when the and-gate section contains no byte 10; the witness that it fails
+   otherwise is pinned. *)
+From Flussab Require Import Aiger AigerProofs AigerSafe AigerLimits Btor2 Btor2Proofs Btor2Safe.
+
+Theorem C08_aag_error_location : forall fuel maxc S fail ohd items l c lr' v',
+  Forall (fun b => b < 256) S -> nlen S < 2 ^ 62 -> (length S < fuel)%nat ->
+  aruns (parse_aag fuel maxc lrs_init) (view_init S fail) (ADone (ohd, items, FErr (ESyntax l c), lr') v') ->
+  loc_ok S l c.
+Proof. exact parse_aag_error_location. Qed.
+Print Assumptions C08_aag_error_location.
+
+Theorem C08_aag_error_position : forall fuel maxc S fail ohd items l c lr' v',
+  Forall (fun b => b < 256) S -> nlen S < 2 ^ 62 -> (length S < fuel)%nat ->
+  aruns (parse_aag fuel maxc lrs_init) (view_init S fail) (ADone (ohd, items, FErr (ESyntax l c), lr') v') ->
+  exists pos, pos <= nlen S /\ (l, c) = line_col_of S pos.
+Proof. exact parse_aag_error_position. Qed.
+Print Assumptions C08_aag_error_position.
+
+Theorem C08_aig_error_location_masked : forall fuel maxc S fail ohd items l c lr' v',
+  Forall (fun b => b < 256) S -> nlen S < 2 ^ 62 -> (length S < fuel)%nat ->
+  aruns (parse_aig fuel maxc lrs_init) (view_init S fail) (ADone (ohd, items, FErr (ESyntax l c), lr') v') ->
+  exists ba bb, ba <= bb /\ bb <= nlen S /\ loc_ok (mask S ba bb) l c /\
+                (ba = bb \/ AndSection fuel maxc lrs_init (view_init S fail) ba bb).
+Proof. exact parse_aig_error_location_masked. Qed.
+Print Assumptions C08_aig_error_location_masked.
+
+Theorem C08_aig_error_location_without_lf_in_gates : forall fuel maxc S fail ohd items l c lr' v',
+  Forall (fun b => b < 256) S -> nlen S < 2 ^ 62 -> (length S < fuel)%nat ->
+  (forall ba bb, AndSection fuel maxc lrs_init (view_init S fail) ba bb -> nolf S ba bb) ->
+  aruns (parse_aig fuel maxc lrs_init) (view_init S fail) (ADone (ohd, items, FErr (ESyntax l c), lr') v') ->
+  loc_ok S l c.
+Proof. exact parse_aig_error_location. Qed.
+Print Assumptions C08_aig_error_location_without_lf_in_gates.
+
+Theorem C08_btor2_error_location : forall fuel S fail items l c lr' v',
+  Forall (fun b => b < 256) S -> nlen S < 2 ^ 62 -> (length S < fuel)%nat ->
+  aruns (parse_btor2 fuel lrs_init) (view_init S fail) (ADone (items, FErr (ESyntax l c), lr') v') ->
+  loc_ok S l c /\ exists pos, pos <= nlen S /\ (l, c) = line_col_of S pos.
+Proof. exact parse_btor2_error_location. Qed.
+Print Assumptions C08_btor2_error_location.
+
+(* the K1 witness: "aig 5 0 0 0 5\n" + 02 00 04 00 06 00 08 00 0A 00 + "x": reported 2:11, the x is at 3:2 *)
+Theorem C08_aig_K1_witness : ~ loc_ok k1_bytes 2 11.
+Proof. exact k1_not_loc_ok. Qed.
+Print Assumptions C08_aig_K1_witness.
